@@ -292,15 +292,18 @@ func open(ctx context.Context, h *Handler, acked bool, s *xmpp.Session, start st
 		iq.Open.BlockSize = blockSize
 	}
 
+	// Register the stream before asking for it: the other side may start
+	// sending data as soon as it has accepted.
+	conn := newConn(h, s, iq, false, MaxBufferSize)
+	h.addStream(sid, conn)
+
 	// Only a result means that the other side accepted the stream; error
 	// replies are returned as errors.
 	err := s.UnmarshalIQ(ctx, iq.TokenReader(), nil)
 	if err != nil {
+		h.rmStream(sid)
 		return nil, err
 	}
-
-	conn := newConn(h, s, iq, false, MaxBufferSize)
-	h.addStream(sid, conn)
 	return conn, nil
 }
 
